@@ -340,23 +340,23 @@ theorem create_stream (a : CreateArgs R) (flt : Option Addr) (ms : MS R) (hm : m
   rw [wp_bind, wp_attempt]
   apply wp_mono (createTxn_stream a flt ms hm)
   intro o ms1 h1
-  have tail : Pres (StreamPost a ms.st) (do commitProcessing a; commitAllocated; deleteMarkers a) := by
+  have tail : Pres (StreamPost a ms.st) (do deleteMarkers a; commitProcessing a; commitAllocated) := by
     apply pres_bind
-    · unfold commitProcessing
+    · unfold deleteMarkers
       apply pres_bind (fun _ _ h => h)
       intro msx
-      exact pres_forEach _ (fun p _ => hinert _ _ _ (keepsRC_walRm _ _ _))
+      exact pres_ite _ (pres_forEach _ (fun p _ => hinert _ _ _ (keepsRC_rmMarker _))) (pres_pure _ _)
     · intro _
       apply pres_bind
-      · unfold commitAllocated
+      · unfold commitProcessing
+        apply pres_bind (fun _ _ h => h)
+        intro msx
+        exact pres_forEach _ (fun p _ => hinert _ _ _ (keepsRC_walRm _ _ _))
+      · intro _
+        unfold commitAllocated
         apply pres_bind (fun _ _ h => h)
         intro msx
         exact pres_ite _ (hinert _ _ _ (keepsRC_walRm _ _ _)) (pres_pure _ _)
-      · intro _
-        unfold deleteMarkers
-        apply pres_bind (fun _ _ h => h)
-        intro msx
-        exact pres_ite _ (pres_forEach _ (fun p _ => hinert _ _ _ (keepsRC_rmMarker _))) (pres_pure _ _)
   cases o <;> exact tail flt ms1 h1
 
 end Eru.Cluster
